@@ -39,9 +39,18 @@ type SiteSpec struct {
 	Asserts []*Clause
 	Updates []GhostUpdate
 	Binds   []GhostUpdate // metavariable := expr evaluated after the call
+	Witness []WitnessSpec // expressions whose model values drive the replay
 	Must    bool          // at least one match required (default true)
 	Line    int
 	matched int
+}
+
+// WitnessSpec: "witness name = expr" or "witness name[j<N] = expr".
+type WitnessSpec struct {
+	Name  string
+	Var   string
+	Bound int
+	E     Expr
 }
 
 type GhostUpdate struct {
@@ -76,6 +85,7 @@ type FuncSpec struct {
 	Effects  []string
 	Modifies []string
 	Sweep    bool
+	Returns  string
 	Props    []string // default props for clauses of this function
 	Assumed  bool     // contract comes from the dependency library (not verified)
 	Trusted  string   // reason, if the contract is used but not verified here
@@ -127,8 +137,8 @@ func parseClause(rest string, fs *FuncSpec, file string, line int) (*Clause, err
 func shortHash(s string) uint32 { return hashStr(strings.Join(strings.Fields(s), " ")) % 100000 }
 
 var topKeywords = map[string]bool{"func": true, "requires": true, "ensures": true, "ghost": true, "let": true, "site": true, "loop": true,
-	"define": true, "kind": true, "pure": true, "nofx": true, "mf": true, "setmf": true, "havocobj": true, "effect": true, "props": true, "sweep": true,
-	"assert": true, "update": true, "bind": true, "invariant": true, "where": true, "optional": true, "trusted": true}
+	"define": true, "kind": true, "pure": true, "nofx": true, "fresh": true, "mf": true, "setmf": true, "havocobj": true, "effect": true, "props": true, "sweep": true,
+	"assert": true, "witness": true, "update": true, "bind": true, "invariant": true, "where": true, "optional": true, "trusted": true, "returns": true}
 
 // parseSpecText parses contract text. prefix is "//@" for in-repo files and "" for dependency specs.
 func parseSpecText(db *SpecDB, text, file, prefix string, assumed bool) error {
@@ -205,9 +215,11 @@ func parseSpecText(db *SpecDB, text, file, prefix string, assumed bool) error {
 			fs.Props = strings.Fields(strings.ReplaceAll(rest, ",", " "))
 		case "sweep":
 			fs.Sweep = true
+		case "returns":
+			fs.Returns = rest
 		case "trusted":
 			fs.Trusted = rest
-		case "pure", "nofx":
+		case "pure", "nofx", "fresh":
 			fs.Kind = word
 		case "kind":
 			fs.Kind = rest
@@ -331,6 +343,21 @@ func parseSpecText(db *SpecDB, text, file, prefix string, assumed bool) error {
 				return err
 			}
 			site.Asserts = append(site.Asserts, c)
+		case "witness":
+			if site == nil {
+				return errf("witness outside site")
+			}
+			m := regexp.MustCompile(`^(\w+)(?:\[(\w+)<(\d+)\])?\s*=\s*(.+)$`).FindStringSubmatch(rest)
+			if m == nil {
+				return errf("bad witness")
+			}
+			e, err := parseSpecExpr(m[4])
+			if err != nil {
+				return errf("%v", err)
+			}
+			w := WitnessSpec{Name: m[1], Var: m[2], E: e}
+			fmt.Sscanf(m[3], "%d", &w.Bound)
+			site.Witness = append(site.Witness, w)
 		case "update", "bind":
 			name, ex, ok := strings.Cut(rest, "=")
 			if !ok || site == nil {
